@@ -248,6 +248,13 @@ class GGen:
                 if self.allow_forced and self.p(0.3):
                     self.feats.add("forced-in-inlinable-rule")
                     alts.insert(self.r.randint(1, len(alts)), [[[None, ["forced", self.r.choice(["'a'", "'b'", "','"])]]], None])
+                elif self.allow_forced and self.p(0.3):
+                    # the same behind a group (and behind an optional / a lookahead-free nesting of groups): still one item, no action
+                    self.feats.add("grouped-forced-in-inlinable-rule")
+                    f = ["grp", [[[[None, ["forced", self.r.choice(["'a'", "'b'", "','"])]]], None]]]
+                    if self.p(0.3):
+                        f = ["grp", [[[[None, f]], None]]]
+                    alts.insert(self.r.randint(1, len(alts)), [[[None, f]], None])
             elif nm == self.bare:
                 # one alternative, one action-free item: the rule's value is the item's own value, and its failure
                 # (None) must stay distinguishable from an empty match wherever the rule is used under an operator
@@ -292,7 +299,7 @@ def falsy_possible(rules) -> bool:
 
     def chk_alts(alts):
         for items, action in alts:
-            vis = [it for _, it in items if it[0] not in ("pos", "neg", "cut", "forced")]
+            vis = [it for _, it in items if it[0] not in ("pos", "neg", "cut")]  # (a forced token is a token: truthy)
             if not action and len(vis) == 1 and vis[0][0] in ("opt", "rep0"):
                 return True
             if not action and not vis:
